@@ -35,6 +35,9 @@ func addGenerators(r *rand.Rand, t *Tree) []GenSpec {
 			name := pickS(r, names)
 			key := kind + "/" + name
 			g := GenSpec{Layer: li, Kind: kind, Name: name}
+			if prev, ok := exists[key]; ok && !t.Visible(prev, li) {
+				continue // defined in a sibling subtree: a second definition would collide at the common parent
+			}
 			if _, ok := exists[key]; ok {
 				g.Behavior = pickS(r, []string{"merge", "merge", "replace"})
 				if r.Intn(12) == 0 {
